@@ -105,8 +105,33 @@ def legacy_spend(draw):
     return dict(kind='spend-' + typ + ('-noP2SH' if flags == NO_P2SH else ''), kw=dict(spendtx=c['tx'].ser().hex(), spendtxin=c['fund'].ser().hex(), flags=flags))
 
 
+@st.composite
+def deep_roll(draw):
+    """a stack of 60..300 items and operations that reach FAR below its top (OP_ROLL / OP_PICK with large indices, bulk drops, moves to the alt stack):
+    whatever a step saves for a later rewind must cover the whole stack, not its upper part"""
+    n = draw(st.sampled_from([60, 64, 65, 66, 70, 100, 128, 129, 200, 256, 300]))
+    stack = [R.num_enc(1000 + i) for i in range(n)]
+    body = bytearray()
+    for _ in range(draw(st.integers(2, 7))):
+        k = draw(st.integers(0, 6))
+        if k < 3:
+            idx = draw(st.sampled_from([n - 1, n - 2, n // 2, 62, 63, 64, 65, 40, 5, 0]))
+            idx = max(0, min(idx, n - 4))
+            body += G.push(R.num_enc(idx), 0) + bytes([draw(st.sampled_from([0x7a, 0x7a, 0x79]))])
+        elif k == 3:
+            body += b'\x6d' * draw(st.sampled_from([1, 2, 10]))
+        elif k == 4:
+            body += b'\x6b' * draw(st.sampled_from([1, 3])) + b'\x6c'
+        elif k == 5:
+            body += bytes([draw(st.sampled_from([0x7b, 0x7c, 0x7d, 0x71, 0x72, 0x70]))])
+        else:
+            body += b'\x74\x8c\x7a'          # DEPTH 1SUB ROLL: the bottom item comes to the top
+    body += b'\x51'
+    return dict(kind='plain-deep-roll', kw=dict(script=bytes(body), stack=stack, flags=draw(flag_choice), sv=draw(st.sampled_from(G.SIGVERS))))
+
+
 def sessions(short=False):
     if short:
         return st.one_of(plain('ctrl', True), plain('ctrl', True), plain('altstack', True), codesep_mock(True), multi_script(True), plain('mixed', True))
     return st.one_of(plain('ctrl'), plain('ctrl'), plain('altstack'), plain('mixed'), codesep_mock(), codesep_mock(), opcount(), multi_script(), multi_script(),
-                     tapscript_spend(), legacy_spend())
+                     tapscript_spend(), legacy_spend(), deep_roll())
